@@ -42,6 +42,9 @@ def instances(tier):
 def run(tier, replay=None):
     run = C.Run(PID, tier, "model_checking")
     cases = R.run_instances(run, "c05_" + tier, instances(tier), R.has_roll)
+    # concurrent writers: traces of real threads validated against the specification
+    R.concurrent_traces(run, "c05", "size", 3, 80 if tier == "quick" else 2000)
+    R.concurrent_traces(run, "c05", "size", 1, 40 if tier == "quick" else 1000)
     if not run.mismatches and run.nontrivial < 50:
         raise C.ToolError("vacuous run: %d behaviours with a rotation" % run.nontrivial)
     run.exhaustive = True
@@ -53,5 +56,5 @@ def run(tier, replay=None):
                 "directory; non-trivial = a rotation happened")
     run.assumptions = ["record sizes are multiples of the unit; time trigger represented by the scripted "
                        "pre-process trigger (its schedule is C16's subject)",
-                       "single-threaded replay; concurrency is covered by the lock (see C04/C17 traces)"]
+                       "replays are single-threaded; concurrent writers are covered by sampled schedules of 2-4 real threads whose traces (events under the appender mutex) are validated against Rolling.tla"]
     return run.finish()
